@@ -13,6 +13,8 @@ mod c22;
 mod child;
 mod corpus;
 mod grid;
+mod many;
+mod many257;
 mod types;
 mod viol;
 
